@@ -83,9 +83,16 @@ func (c *c17) start(ch *kernel.Chooser) string {
 // concurrentStart: two browsers start a login at the same time; the scheduler interleaves the two handler
 // invocations at the point where the handler evaluates its URL parameter options.
 func (c *c17) concurrentStart(ch *kernel.Chooser) string {
-	sched := kernel.NewSched(c.w.Tape, fmt.Sprintf("pair:%d", c.step), 100)
+	sched := kernel.NewSched(c.w.Tape, fmt.Sprintf("pair:%d", c.step), 400)
 	c.rp.ParamHook = func() { sched.Park(sched.Current, "rp.urlparam", nil) }
-	defer func() { c.rp.ParamHook = nil }()
+	// the two handler invocations may also switch wherever the handler reaches for its response headers (cookies,
+	// Location): between any two of its effects
+	c.w.Net.OnHeader = func(_ context.Context, ex *world.Exchange) {
+		if ex.Host == c.host() {
+			sched.Park(sched.Current, "rp.header", nil)
+		}
+	}
+	defer func() { c.rp.ParamHook, c.w.Net.OnHeader = nil, nil }()
 	resps := make([]*world.Resp, 2)
 	for i := 0; i < 2; i++ {
 		i := i
